@@ -234,7 +234,7 @@ func checkC08(c *Ctx) *core.Result {
 	inlineHelper := func(callee *ssa.Function, depth int) bool {
 		return p.InModule(callee) && !anchored[callee] && depth <= 3 && len(callee.Blocks) <= 60 && reachesFrom(p, callee, lookup)
 	}
-	paths, err := ssax.EnumerateTraces(chk, inlineHelper, 2000)
+	paths, err := ssax.EnumerateTracesWith(chk, inlineHelper, 2000, traceConsts(p))
 	if err != nil {
 		r.Fail("V2", core.QualName(chk), "path enumeration", p.Pos(chk.Pos()), err.Error())
 	}
